@@ -557,3 +557,185 @@ func runC12(t *testing.T) func(c c12Case, st *verifkit.Stats) *verifkit.Failure 
 func TestVerifC12(t *testing.T) {
 	verifkit.Run(t, "C12", drawC12, runC12(t))
 }
+
+// ---- (d) the restarting speaker withholds its advertisements ----
+//
+// Peers A and B are configured for graceful restart with the local-restarting state set
+// (what gobgpd -r gives) and generated deferral times; C has no GR.  A and B establish
+// at generated instants, announce routes and send End-of-RIB at generated instants or
+// never.  Reference: a GR peer X gets nothing before T_X = min(instant at which every GR
+// peer has sent End-of-RIB, establishment of X + deferral time of X) and holds exactly
+// the routes of the others (plus the local one) afterwards; C is served at once.
+
+type c12RestartCase struct {
+	Deferral [2]int `json:"deferral"` // seconds
+	EstB     int    `json:"est_b"`    // B establishes this many seconds after A
+	EOR      [2]int `json:"eor"`      // seconds after the peer's establishment, -1 never
+	Routes   [2]int `json:"routes"`   // number of routes announced by A, B
+}
+
+func drawC12Restart(t *rapid.T) c12RestartCase {
+	return c12RestartCase{
+		Deferral: [2]int{rapid.SampledFrom([]int{10, 30}).Draw(t, "da"), rapid.SampledFrom([]int{10, 30, 60}).Draw(t, "db")},
+		EstB:     rapid.SampledFrom([]int{0, 5, 20}).Draw(t, "estb"),
+		EOR:      [2]int{rapid.SampledFrom([]int{-1, 2, 15, 40}).Draw(t, "eora"), rapid.SampledFrom([]int{-1, 2, 15, 40}).Draw(t, "eorb")},
+		Routes:   [2]int{rapid.IntRange(0, 2).Draw(t, "ra"), rapid.IntRange(1, 2).Draw(t, "rb")},
+	}
+}
+
+func runC12Restart(t *testing.T) func(c c12RestartCase, st *verifkit.Stats) *verifkit.Failure {
+	return func(c c12RestartCase, st *verifkit.Stats) *verifkit.Failure {
+		return simRun(t, func() *verifkit.Failure {
+			ctx := context.Background()
+			n, err := simStart(rsApiGlobal(rsGlobal{}))
+			if err != nil {
+				return verifkit.Failf("start", "%v", err)
+			}
+			defer n.stop()
+			peers := []rsPeer{{Addr: "10.0.0.1", ID: "10.0.0.1", Kind: rsEBGP, AS: 65001}, {Addr: "10.0.0.2", ID: "10.0.0.2", Kind: rsEBGP, AS: 65002}, {Addr: "10.0.0.3", ID: "10.0.0.3", Kind: rsEBGP, AS: 65003}}
+			for i := range peers {
+				ap := rsApiPeer(rsGlobal{}, &peers[i])
+				if i < 2 {
+					ap.GracefulRestart = &api.GracefulRestart{Enabled: true, RestartTime: 120, LocalRestarting: true, DeferralTime: uint32(c.Deferral[i])}
+					for _, af := range ap.AfiSafis {
+						af.MpGracefulRestart = &api.MpGracefulRestart{Config: &api.MpGracefulRestartConfig{Enabled: true}}
+					}
+				}
+				if err := n.s.AddPeer(ctx, &api.AddPeerRequest{Peer: ap}); err != nil {
+					return verifkit.Failf("addpeer", "%v", err)
+				}
+			}
+			// a locally originated route
+			nlri, _ := bgp.NewIPAddrPrefix(rsPrefix(false, 5))
+			la := rsAttrs{MED: -1, LocalPref: -1, NextHop: "192.0.2.9"}
+			if _, err := n.s.AddPath(apiutil.AddPathRequest{Paths: []*apiutil.Path{{Family: bgp.RF_IPv4_UC, Nlri: nlri, Attrs: la.toBGP(nlri, false, 0)}}}); err != nil {
+				return verifkit.Failf("addpath", "%v", err)
+			}
+			n.settle()
+			t0 := n.now()
+			var log []string
+			logf := func(f string, a ...any) { log = append(log, fmt.Sprintf("[%v] ", n.now()-t0)+fmt.Sprintf(f, a...)) }
+			fail := func(sig, f string, a ...any) *verifkit.Failure {
+				return verifkit.Failf(sig, "%s\n  timeline:\n   %s", fmt.Sprintf(f, a...), strings.Join(log, "\n   "))
+			}
+			grSpec := func(p *rsPeer) simOpenSpec {
+				spec := rsOpenSpec(p)
+				spec.GR = &simGR{Time: 120, Families: []uint32{uint32(bgp.RF_IPv4_UC)<<1 | 1, uint32(bgp.RF_IPv6_UC)<<1 | 1}}
+				return spec
+			}
+			sess := make([]*simSess, 3)
+			views := []*rsView{newRsView(), newRsView(), newRsView()}
+			est := [2]time.Duration{0, time.Duration(c.EstB) * time.Second}
+			// events in time order
+			type ev struct {
+				at   time.Duration
+				what string
+				peer int
+			}
+			var evs []ev
+			for i := 0; i < 2; i++ {
+				evs = append(evs, ev{est[i], "establish", i})
+				if c.EOR[i] >= 0 {
+					evs = append(evs, ev{est[i] + time.Duration(c.EOR[i])*time.Second, "eor", i})
+				}
+			}
+			evs = append(evs, ev{time.Second, "establish", 2})
+			for _, o := range []int{1, 9, 11, 16, 25, 29, 31, 36, 41, 51, 61, 75, 85} {
+				evs = append(evs, ev{time.Duration(o)*time.Second + 500*time.Millisecond, "observe", -1})
+			}
+			sort.SliceStable(evs, func(i, j int) bool { return evs[i].at < evs[j].at })
+			// reference instants
+			never := time.Duration(1 << 60)
+			eorAt := [2]time.Duration{never, never}
+			for i := 0; i < 2; i++ {
+				if c.EOR[i] >= 0 {
+					eorAt[i] = est[i] + time.Duration(c.EOR[i])*time.Second
+				}
+			}
+			tAll := max(eorAt[0], eorAt[1])
+			tX := [2]time.Duration{}
+			for i := 0; i < 2; i++ {
+				tX[i] = min(tAll, est[i]+time.Duration(c.Deferral[i])*time.Second)
+			}
+			announced := [2]bool{}
+			for _, e := range evs {
+				n.advance(t0 + e.at - n.now())
+				switch e.what {
+				case "establish":
+					spec := rsOpenSpec(&peers[e.peer])
+					if e.peer < 2 {
+						spec = grSpec(&peers[e.peer])
+					}
+					ss, _, err := n.establish(peers[e.peer].def(), spec)
+					if err != nil {
+						return fail("establish", "peer %d: %v", e.peer, err)
+					}
+					sess[e.peer] = ss
+					logf("peer %d established", e.peer)
+					if e.peer < 2 {
+						for k := 0; k < c.Routes[e.peer]; k++ {
+							a := rsAttrs{MED: -1, LocalPref: -1, NextHop: "192.0.2.1", ASPath: []rsSeg{{T: 2, AS: []uint32{peers[e.peer].AS}}}}
+							_ = ss.send(rsAnnounce(&peers[e.peer], false, e.peer*2+k, 0, a), rsTxOpt(&peers[e.peer]))
+						}
+						announced[e.peer] = true
+					}
+				case "eor":
+					_ = sess[e.peer].send(bgp.NewEndOfRib(bgp.RF_IPv4_UC), rsTxOpt(&peers[e.peer]))
+					_ = sess[e.peer].send(bgp.NewEndOfRib(bgp.RF_IPv6_UC), rsTxOpt(&peers[e.peer]))
+					logf("peer %d sends End-of-RIB", e.peer)
+				case "observe":
+					n.settle()
+					for i := 0; i < 3; i++ {
+						if sess[i] == nil {
+							continue
+						}
+						rx, eof, _ := sess[i].snapshot()
+						if eof {
+							return fail("session", "peer %d session ended", i)
+						}
+						views[i].feed(rx, rsRxOpt(&peers[i]))
+						want := map[string]bool{}
+						served := i == 2 || e.at >= tX[i]
+						if served {
+							want[rsPrefix(false, 5).String()] = true
+							for j := 0; j < 2; j++ {
+								if j != i && announced[j] {
+									for k := 0; k < c.Routes[j]; k++ {
+										want[rsPrefix(false, j*2+k).String()] = true
+									}
+								}
+							}
+						}
+						got := map[string]bool{}
+						for k := range views[i].entries {
+							got[k.Prefix] = true
+						}
+						st.SubEval(1)
+						for p := range got {
+							if !want[p] {
+								if !served {
+									return fail("advertised-while-deferring", "at %v peer %d already holds %s; the server is restarting and must withhold its advertisements until %v (every GR peer sent End-of-RIB at %v, deferral of this peer ends at %v)", e.at, i, p, tX[i], tAll, est[i]+time.Duration(c.Deferral[i])*time.Second)
+								}
+								return fail("restart-view-extra", "at %v peer %d holds %s", e.at, i, p)
+							}
+						}
+						for p := range want {
+							if !got[p] {
+								return fail("not-advertised-after-deferral", "at %v peer %d (served since %v) was not told about %s", e.at, i, map[bool]any{true: tX[min(i, 1)], false: "its establishment"}[i < 2], p)
+							}
+						}
+					}
+					logf("observed")
+				}
+			}
+			if tX[0] > est[0]+2*time.Second || tX[1] > est[1]+2*time.Second {
+				st.Nontrivial()
+			}
+			return n.stop()
+		})
+	}
+}
+
+func TestVerifC12_restart(t *testing.T) {
+	verifkit.Run(t, "C12_restart", drawC12Restart, runC12Restart(t))
+}
